@@ -348,7 +348,13 @@ func (c *c03) authorize(ch *kernel.Chooser) string {
 		id, unknown = "nobody", true
 	}
 	req, kind := c.requested(ch, cl)
-	respType := []string{"code", "code", "code", "id_token token", "id_token", "token", ""}[ch.Int(7)]
+	respType := []string{"code", "code", "code", "id_token token", "id_token", "token", "", "code", "id_token token"}[ch.Int(9)]
+	if ch.Bool(1, 8) {
+		// spelled unusually: surrounding or doubled blanks, another order of the values - whatever the provider makes of
+		// it, where it sends the user agent is judged by the flow it actually runs
+		respType = ch.Pick("code ", " code", "code  ", "token id_token", "id_token  token", "Code")
+		c.o.Probe("response-type-spelled-unusually")
+	}
 	v := url.Values{"client_id": {id}, "response_type": {respType}, "scope": {"openid"}, "state": {"st"}, "nonce": {"n"}}
 	if kind != "missing" {
 		v.Set("redirect_uri", req)
